@@ -64,7 +64,9 @@ def _watch_release_busy(s, hid, until_ms):
 def c14_cases(workdir, quick=True):
     out = []
     n = 0
-    grid = [("retry", sc.retry_then_stop(5), 5000), ("waiter", sc.wait_timeout_then_stop(5), 5000)]
+    # (a wait with timeout 0 is due at once: the step must get its TimeoutError, not wait forever)
+    grid = [("retry", sc.retry_then_stop(5), 5000), ("waiter", sc.wait_timeout_then_stop(5), 5000),
+            ("waiter", sc.wait_timeout_then_stop(0), 0)]
     for (kind, prog, delay_ms) in grid:
         for idle_timeout in ((2.0, 20.0) if quick else (1.0, 2.0, 4.9, 5.0, 20.0)):
             db = os.path.join(str(workdir), "c14_%d.db" % n)
@@ -463,6 +465,25 @@ def idle_cases(workdir, quick=True):
                                            "released_at": r1, "idle_row_before_send": True,
                                            "busy_at_release": bool(b1["live_bodies"] or b1["queued"] or b1["running"] or b2["live_bodies"] or b2["queued"] or b2["running"]),
                                            "expect_result": "done", "expect_resp": ["x0", "x1"]}))
+    finally:
+        s.close()
+    # 2b. the garbage collector as part of the environment: after a reload nobody but the runtime refers to the run (the
+    #     reload drops the handler that workflow.run() returns); while the reloaded run waits for its next event -- no timer
+    #     pending -- a cyclic GC pass runs; the next event must still find the run and be processed
+    s = mk(sc.two_waits())
+    try:
+        import gc
+        r1, b1 = _watch_release(s, "h1", 15000)
+        s.send("h1", "Resp", "x0", 0)
+        s.drain()
+        en._RUNNERS.clear()                       # the harness's own registry of live runners must not be what keeps it alive
+        gc.collect()
+        s.send("h1", "Resp", "x1", 1)
+        s.run_to_end(s.now_ms() + 40000)
+        out.append(final(s, "reload_then_gc", {"gap_ms": 15000, "idle_timeout_ms": int(IDLE * 1000), "released": bool(r1 >= 0),
+                                               "released_at": r1, "idle_row_before_send": True,
+                                               "busy_at_release": bool(b1["live_bodies"] or b1["queued"] or b1["running"]),
+                                               "expect_result": "done", "expect_resp": ["x0", "x1"]}))
     finally:
         s.close()
     # 3. two senders at once to a released run: one reload, one live loop, both events processed
